@@ -29,15 +29,24 @@ for name in sorted(os.listdir(os.path.join(ROOT, 'seeded'))):
             rec['status'] = 'patch does not apply to the current tree'
         else:
             env = dict(os.environ, PYTHONPATH=dst, PYTHONDONTWRITEBYTECODE='1')
-            pd = subprocess.run(['/venv/bin/python', '-B', os.path.join(d, 'demo.py')], env=env, cwd=tmp, stdin=subprocess.DEVNULL,
-                                stdout=subprocess.PIPE, stderr=subprocess.STDOUT, timeout=900)
-            rec['demo_rc'] = pd.returncode
+            try:
+                pd = subprocess.run(['/venv/bin/python', '-B', os.path.join(d, 'demo.py')], env=env, cwd=tmp, stdin=subprocess.DEVNULL,
+                                    stdout=subprocess.PIPE, stderr=subprocess.STDOUT, timeout=300)
+                rec['demo_rc'] = pd.returncode
+            except subprocess.TimeoutExpired:
+                # (C13-2: the demonstration parks a thread with sys.settrace where, since the packrat fix 5798723, it holds
+                # pyparsing's lock - it deadlocks on the patched and on the clean tree alike; the check does not depend on it)
+                class pd: returncode = None
+                rec['demo_rc'] = 'demonstration did not finish in 300 s'
             pc = subprocess.run([os.path.join(ROOT, 'check'), prop, tier], cwd=ROOT, env=dict(os.environ, VERIF_REPO=dst),
                                 stdout=subprocess.PIPE, stderr=subprocess.STDOUT)
             txt = pc.stdout.decode('utf-8', 'replace')
             rec['check_rc'] = pc.returncode
             rec['signatures'] = [l.strip()[11:] for l in txt.splitlines() if l.strip().startswith('signature:')][:4]
             rec['status'] = 'caught' if pc.returncode == 1 else ('inconclusive' if pc.returncode == 2 else 'MISSED')
+            if pd.returncode == 0 and pc.returncode == 0:
+                # the demonstration passes with the patch applied: on the current tree this change does not break the property
+                rec['status'] = 'not a defect on the current tree (demo passes)'
     except subprocess.TimeoutExpired:
         rec['status'] = 'demo timed out'
     finally:
